@@ -44,6 +44,10 @@ fn main() {
         // one undecodable-state probe per process: decoding damaged bytes may abort
         std::process::exit(c19::blob_worker(args.get(1).map(|s| s.as_str()).unwrap_or("")));
     }
+    if args[0] == "--c17-part" {
+        // one backend block per process (thread creation contends inside one address space)
+        std::process::exit(c17::part_worker(&args[1..]));
+    }
     if args[0] == "--replay" {
         let path = args.get(1).unwrap_or_else(|| usage());
         let text = std::fs::read_to_string(path).unwrap_or_else(|e| {
